@@ -62,26 +62,26 @@ type violationRec struct {
 }
 
 type shardOut struct {
-	Property     string           `json:"property"`
-	Shard        int              `json:"shard"`
-	Seed         uint64           `json:"seed"`
-	Tier         string           `json:"tier"`
-	Rule         string           `json:"rule"`
-	Evaluations  int64            `json:"evaluations"`
-	Hashes       []string         `json:"hashes"`
-	Labels       map[string]int64 `json:"labels"`
-	KnownHits    map[string]int64 `json:"known_hits"`
-	KnownRepro   []string         `json:"known_reproduced"`
-	KnownStale   []string         `json:"known_not_reproduced"`
-	Samples      []interface{}    `json:"samples"`
-	Violations   []violationRec   `json:"violations"`
-	SubCounts    map[string]int64 `json:"sub_counts"`
-	Requested    map[string]int   `json:"requested"`
-	Notes        []string         `json:"notes"`
-	Assumptions  []string         `json:"assumptions"`
-	Extra        map[string]interface{} `json:"extra,omitempty"`
-	Completed    bool             `json:"completed"`
-	WallS        float64          `json:"wall_s"`
+	Property    string                 `json:"property"`
+	Shard       int                    `json:"shard"`
+	Seed        uint64                 `json:"seed"`
+	Tier        string                 `json:"tier"`
+	Rule        string                 `json:"rule"`
+	Evaluations int64                  `json:"evaluations"`
+	Hashes      []string               `json:"hashes"`
+	Labels      map[string]int64       `json:"labels"`
+	KnownHits   map[string]int64       `json:"known_hits"`
+	KnownRepro  []string               `json:"known_reproduced"`
+	KnownStale  []string               `json:"known_not_reproduced"`
+	Samples     []interface{}          `json:"samples"`
+	Violations  []violationRec         `json:"violations"`
+	SubCounts   map[string]int64       `json:"sub_counts"`
+	Requested   map[string]int         `json:"requested"`
+	Notes       []string               `json:"notes"`
+	Assumptions []string               `json:"assumptions"`
+	Extra       map[string]interface{} `json:"extra,omitempty"`
+	Completed   bool                   `json:"completed"`
+	WallS       float64                `json:"wall_s"`
 }
 
 type state struct {
@@ -105,7 +105,7 @@ var collectMode = os.Getenv("VERIF_COLLECT") != ""
 // Env
 var (
 	Property   string
-	Tier       = "quick"
+	Tier              = "quick"
 	Seed       uint64 = 1
 	Shard      int
 	Shards     = 1
